@@ -5,7 +5,7 @@ id=$1; shift; checks=${@:-$(echo $id | cut -c1-3)}
 wt=/tmp/mev_$id
 git -C /repo worktree remove --force $wt 2>/dev/null; rm -rf $wt
 git -C /repo worktree add -q --detach $wt HEAD || exit 2
-if ! git -C $wt apply /verif/seeded/$id/patch.diff; then echo "$id: patch does not apply to HEAD"; git -C /repo worktree remove --force $wt; exit 2; fi
+if ! git -C $wt apply /verif/seeded/$id/patch.diff 2>/dev/null && ! (cd $wt && patch -s -p1 -F3 < /verif/seeded/$id/patch.diff); then echo "$id: patch does not apply to HEAD"; git -C /repo worktree remove --force $wt; exit 2; fi
 for c in $checks; do
   s=$(date +%s)
   out=$(cd /verif && VERIF_REPO=$wt timeout 2400 ./check $c --tier ${VERIF_TIER:-quick} 2>&1); rc=$?
